@@ -118,3 +118,18 @@ Proof.
   destruct (cs_load_screen L (cs_data (cs_plain a))); cbn [res_bind]; [|reflexivity].
   destruct (unwrap (cs_scorer_cls a)); cbn [res_bind]; reflexivity.
 Qed.
+
+(* the same, with the model spelled out: the scorer component of the main() model IS the resolved class instantiated with
+   the cast parameters *)
+Theorem src_cli_calculate_scores_cmd_spelled :
+  forall (Cls F O : Type) (I : introspect Cls) (P : pyprims F O) (Scr Pl Th Dm Sc H : Type)
+         (construct : Cls -> list (str * pval F O) -> result Sc) (L : cs_lib Scr Pl Th Dm Sc H) (mix : Z -> Z)
+         (raw : cs_ns Cls F O),
+  src_cli_calculate_scores_cmd Cls F O I P Scr Pl Th Dm Sc H construct L mix raw
+  = (dor cp <- resolve I P BScorer (cs_scorer raw) (cs_scorer_param raw);
+     cli_calculate_scores (cs_with_mk L (instantiate construct (fst cp) (snd cp))) mix (cs_plain raw)).
+Proof.
+  intros. rewrite src_cli_calculate_scores_cmd_is_model.
+  unfold cli_calculate_scores_cmd, cs_get_args.
+  destruct (resolve I P BScorer (cs_scorer raw) (cs_scorer_param raw)); reflexivity.
+Qed.
